@@ -223,6 +223,33 @@ theorem safeFinish_guardsKept {m m3 : M} {econ : Ctx} {link : List Ctx} {d : Nat
       exact GuardsKept.of_not_ok hne
   | crash w m1 => trivial
 
+theorem safeFpFinish_guardsKept {m m3 : M} {econ : Ctx} {link : List Ctx} {d : Nat} {owner : Val} {r : Res}
+    (he1 : econ.saveLd = m.loadDepth) (he2 : econ.saveRd = m.restrictDestruct)
+    (hl : m3.loadDepth = m.loadDepth) (hd : m3.restrictDestruct = m.restrictDestruct)
+    (h : GuardsKept m3 r) : GuardsKept m (safeFpFinish owner econ link d r) := by
+  cases r with
+  | ok m5 =>
+    simp only [safeFpFinish]
+    split
+    · rename_i m6 hlc
+      have g6 := leaveCall_guards hlc
+      split
+      · rename_i m7 hp
+        have g7 := popN_guards _ _ _ hp
+        exact ⟨g7.1.trans (g6.1.trans (h.1.trans hl)), g7.2.trans (g6.2.trans (h.2.trans hd))⟩
+      · trivial
+    · rename_i hne
+      exact GuardsKept.of_not_ok hne
+  | err m6 =>
+    simp only [safeFpFinish]
+    split
+    · rename_i m7 hr
+      have g7 := restoreContext_guards hr
+      exact ⟨g7.1.trans he1, g7.2.trans he2⟩
+    · rename_i hne
+      exact GuardsKept.of_not_ok hne
+  | crash w m1 => trivial
+
 theorem saveContext_guards {m m1 : M} {econ : Ctx} (h : saveContext m = some (econ, m1)) :
     econ.saveLd = m.loadDepth ∧ econ.saveRd = m.restrictDestruct ∧
     m1.loadDepth = m.loadDepth ∧ m1.restrictDestruct = m.restrictDestruct := by
@@ -234,6 +261,7 @@ theorem saveContext_guards {m m1 : M} {econ : Ctx} (h : saveContext m = some (ec
 theorem execOp_guards_of {o : Op} (h : ∀ m, GuardsKept m (execCore o m)) (m : M) : GuardsKept m (execOp o m) := by
   unfold execOp
   split
+  · exact h _
   · exact h _
   · split
     · exact raise_guardsKept _ _ _
@@ -326,7 +354,26 @@ theorem execCore_guards : ∀ (o : Op) (m : M), GuardsKept m (execCore o m)
         have ge := enterCall_guards (.other masterVal) declared m2
         exact safeFinish_guardsKept (m3 := m3) (econ := safeCtx nargs econ0) e1 e2
           (g3.1.trans (ge.1.trans g1)) (g3.2.trans (ge.2.trans g2)) (thenTick_guardsKept (exec_guards body m3))
+  | .safeFp owner nargs declared body, m => by
+    simp only [execCore]
+    split
+    · split
+      · rename_i m2 hp
+        exact popN_guards _ (pushVals nargs m) _ hp
+      · trivial
+    · rename_i econ0 m2 hs
+      obtain ⟨e1, e2, g1, g2⟩ := saveContext_guards hs
+      split
+      · exact safeFpFinish_guardsKept (m3 := m2) (econ := safeCtx nargs econ0) e1 e2 g1 g2 (raise_guardsKept _ _ _)
+      · split
+        · trivial
+        · rename_i m3 ha
+          have g3 := adjustArgs_guards ha
+          have ge := enterCall_guards (.fpLocal owner) declared m2
+          exact safeFpFinish_guardsKept (m3 := m3) (econ := safeCtx nargs econ0) e1 e2
+            (g3.1.trans (ge.1.trans g1)) (g3.2.trans (ge.2.trans g2)) (thenTick_guardsKept (exec_guards body m3))
   | .raise msg, m => by simp only [execCore]; exact raise_guardsKept _ _ _
+  | .craise msg, m => by simp only [execCore]; exact raise_guardsKept _ _ _
   | .throw_ v, m => by simp only [execCore]; exact throwVal_guardsKept _ _ _
   | .raiseLimit, m => by simp only [execCore]; exact raise_guardsKept _ _ _
   | .load body, m => by
